@@ -3,17 +3,19 @@
 #pragma once
 #include <new>
 #include <stdlib.h>
+#include <string.h>
 #include <stdint.h>
 
 // ============================================================================ allocator seam
 namespace ledger {
+static int fill = -1;   /* >= 0: fresh allocations made inside library calls are filled with this byte */
 static bool in_sut = false; static int64_t live = 0; static int64_t fail_countdown = 0; static uint64_t allocs_in_op = 0, failures = 0;
 static const uint64_t TAG_SUT = 0x5355545f414c4c4fULL, TAG_OTHER = 0x4f544845525f414cULL;
 #ifndef VERIF_NO_LEDGER
 static void* alloc(size_t n, bool nothrow) {
     if (in_sut) { ++allocs_in_op; if (fail_countdown > 0 && --fail_countdown == 0) { ++failures; if (nothrow) return 0; throw std::bad_alloc(); } }
     uint64_t* p = (uint64_t*)malloc(n + 16); if (!p) { if (nothrow) return 0; throw std::bad_alloc(); }
-    p[0] = in_sut ? TAG_SUT : TAG_OTHER; p[1] = n; if (in_sut) ++live; return p + 2;
+    p[0] = in_sut ? TAG_SUT : TAG_OTHER; p[1] = n; if (in_sut) { ++live; if (fill >= 0) memset(p + 2, fill, n); } return p + 2;
 }
 static void release(void* v) { if (!v) return; uint64_t* p = (uint64_t*)v - 2; if (p[0] == TAG_SUT) --live; p[0] = 0; free(p); }
 #endif
